@@ -538,6 +538,7 @@ def task_termination(ctx):
         ("scf_loop", "scf_forward3", "1"): "COUNTER",  # breaks when COUNTER reaches the cap or all converged
         ("scf_loop", "scf_forward3", "k < Rank - 1 and torch.max(Error) > xl_bomd_params['err_threshold']"): "k",
         ("cal_par", "POIJ", "I < 100"): "I",
+        ("SP2", "SP2", "notconverged.any()"): "k",  # counter-guarded raise (loud failure) after SP2_MAX_ITER purification steps
     }
     n_loops = 0
     for mod, name in targets:
@@ -561,10 +562,11 @@ def task_termination(ctx):
                 n_loops += 1
                 test = ast.unparse(node.test)
                 var = VARIANTS.get((short, name, test))
-                body_src = "\n".join(ast.unparse(b) for b in node.body)
                 if var is not None and _counter_increases(node, var):
-                    bounded = test != "1" or _has_counter_break(node, var)
-                    if bounded:
+                    # bounded if the loop test itself bounds the counter, or the body leaves the loop (break / return / raise) under a
+                    # test on the counter
+                    in_test = any(isinstance(n, ast.Name) and n.id == var for n in ast.walk(node.test))
+                    if in_test or _has_counter_break(node, var):
                         ctx.ok("%s.%s.while[%s]" % (short, name, test[:40]), "variant:" + var)
                         continue
                 ctx.fail("%s.%s.while[%s].has-bounded-variant" % (short, name, test[:40]),
@@ -584,10 +586,23 @@ def _counter_increases(node, var):
     return False
 
 
+def _bounds_counter(test, var):
+    """the test is `var >= bound`, `var > bound` or `var == bound` (either orientation), or a disjunction containing one"""
+    if isinstance(test, ast.BoolOp) and isinstance(test.op, ast.Or):
+        return any(_bounds_counter(v, var) for v in test.values)
+    if isinstance(test, ast.Compare) and len(test.ops) == 1:
+        l, r, op = test.left, test.comparators[0], test.ops[0]
+        if isinstance(l, ast.Name) and l.id == var and isinstance(op, (ast.GtE, ast.Gt, ast.Eq)):
+            return True
+        if isinstance(r, ast.Name) and r.id == var and isinstance(op, (ast.LtE, ast.Lt, ast.Eq)):
+            return True
+    return False
+
+
 def _has_counter_break(node, var):
-    """a `break` guarded by a comparison that mentions the counter"""
+    """a `break` / `return` / `raise` directly under `if <counter reaches a bound>:` in the loop body (not nested in another loop)"""
     for n in ast.walk(node):
-        if isinstance(n, ast.If) and var in ast.unparse(n.test) and any(isinstance(b, (ast.Break, ast.Return)) for b in n.body):
+        if isinstance(n, ast.If) and _bounds_counter(n.test, var) and any(isinstance(b, (ast.Break, ast.Return, ast.Raise)) for b in n.body):
             return True
     return False
 
@@ -646,6 +661,62 @@ def task_padding_shift(ctx):
     ctx.undecided_clause("the SP2 path has no such guard for padded orbitals (feeds the termination finding)")
 
 
+def task_sp2_padding_guard(ctx):
+    """SP2 path of make_Pnew_factory: the packed Fock matrix handed to the purification has every zero-padded orbital lifted to
+    hN + dE (>= every Gershgorin upper bound of the matrix, > the physical block's bounds when the spectrum has a width), padded
+    rows otherwise zero and the physical block untouched -- so the scaled start matrix (hN' - a)/(hN' - h1) is exactly zero on
+    the padded orbitals and stays zero under x -> x^2 and x -> 2x - x^2."""
+    fn = ctx.under_contract(SCF + ":make_Pnew_factory", stubs=["SP2 (captures its argument)", "unpack"])
+    cap = {}
+
+    def sp2_stub(a, nocc, eps=None, factor=2.0):
+        cap["a"] = a.clone()
+        return a
+
+    def thunk():
+        # batch [O-H (5 orbitals), H-H (2 orbitals)], molsize 2 -> 8x8 Fock matrices, packed to 5x5
+        F = st.zeros(2, 8, 8)
+        phys = {0: [0, 1, 2, 3, 4], 1: [0, 4]}
+        for m in range(2):
+            for i in phys[m]:
+                for j in phys[m]:
+                    if i <= j:
+                        F.a[m, i, j] = F.a[m, j, i] = real("F_%d_%d_%d" % (m, i, j))
+        inner = fn("AM1", [True, real("sp2eps")], 2, False, [1], False)
+        inner(F, st.tensor([0, 0]), st.tensor([1, 0]), st.tensor([1, 2]), st.tensor([4, 1]))
+        return cap["a"], F
+
+    ex = ctx.explore(thunk, stubs={SCF + ":SP2": sp2_stub, SCF + ":unpack": lambda D, nh, nhy, size: D}, name="sp2-core-step", max_paths=512)
+    n_ok = 0
+    for p in ex.paths:
+        if p.raised is not None:
+            ctx.fail("raises@p%d" % p.path_id, repr(p.raised) + p.notes.get("traceback", "")[-600:])
+            continue
+        n_ok += 1
+        a, F = p.value
+        phys = [[a.a[1, i, j] for j in range(2)] for i in range(2)]
+        hi = [phys[i][i] + abs(phys[i][1 - i]) for i in range(2)]
+        lo = [phys[i][i] - abs(phys[i][1 - i]) for i in range(2)]
+        width = (hi[0] > lo[0]) | (hi[1] > lo[1]) | (hi[0] > lo[1]) | (hi[1] > lo[0])
+        for r in range(2, 5):
+            for h in hi:
+                ctx.prove("padded-diagonal[%d]>=gershgorin-bound-of-physical-block@p%d" % (r, p.path_id), a.a[1, r, r] >= h, pc=p.pc)
+                ctx.prove("padded-diagonal[%d]>bound-when-the-spectrum-has-a-width@p%d" % (r, p.path_id), Sym(E.implies(width.n, (a.a[1, r, r] > h).n)), pc=p.pc)
+            for c in range(5):
+                if c != r:
+                    ctx.prove_eq("padded-row[%d,%d]=0@p%d" % (r, c, p.path_id), a.a[1, r, c], 0, pc=p.pc)
+        for i in range(2):
+            for j in range(2):
+                ctx.prove_eq("physical-block-untouched[%d,%d]@p%d" % (i, j, p.path_id), a.a[1, i, j], F.a[1, 4 * i, 4 * j], pc=p.pc)
+        for i in range(5):
+            for j in range(5):
+                ctx.prove_eq("unpadded-molecule-untouched[%d,%d]@p%d" % (i, j, p.path_id), a.a[0, i, j], F.a[0, i if i < 4 else 4, j if j < 4 else 4], pc=p.pc)
+    if n_ok == 0:
+        ctx.error("paths", "no path")
+    ctx.assume_note("shape: batch [O-H, H-H] (the second molecule has three padded orbitals in the packed 5x5 matrix)")
+    ctx.undecided_clause("that the purification converges when there is a gap (SP2 now fails loudly after SP2_MAX_ITER steps instead of looping)")
+
+
 def task_density_lemmas(ctx):
     """Given orthonormal occupied orbitals (A2), P = 2 C_occ C_occ^T is symmetric, has trace 2 nocc and (P/2)^2 = P/2."""
     for norb, nocc in ((2, 1), (3, 1), (3, 2)):
@@ -663,5 +734,5 @@ def task_density_lemmas(ctx):
     ctx.undecided_clause("commutator [F,P] = 0 and idempotency of the returned density in floating point")
 
 
-TASKS_QUICK = ["get_error", "scf_forward0", "scf_forward1", "scf_forward2_w0", "scf_forward2_w1", "scf_forward2_w2", "scf_forward2_w3", "termination", "padding_shift", "density_lemmas"]
+TASKS_QUICK = ["get_error", "scf_forward0", "scf_forward1", "scf_forward2_w0", "scf_forward2_w1", "scf_forward2_w2", "scf_forward2_w3", "termination", "padding_shift", "sp2_padding_guard", "density_lemmas"]
 TASKS_THOROUGH = TASKS_QUICK
